@@ -132,8 +132,9 @@ VARIABLES
   prec32,  \* TRUE while the index still has float32 precision (Compress only rebuilds float32 indexes)
   ops,     \* history (not part of the state identity)
   tab,     \* per-clause results of the current state, tabulated when the state is produced (see Derive)
-  wi       \* 0, or the number of the scripted history this behaviour follows
-vars == <<truth, live, ix, dur, prec32, ops, tab, wi>>
+  wi,      \* 0, or the number of the scripted history this behaviour follows
+  todo     \* the operations of that history still to perform
+vars == <<truth, live, ix, dur, prec32, ops, tab, wi, todo>>
 
 \* ---- hnsw.Index
 HAdd(x, id) == [x EXCEPT !.nodes = Append(@, [ext |-> id, st |-> "live"]),
@@ -340,6 +341,7 @@ Init ==
   /\ ix = EmptyIx /\ dur = EmptyDur /\ prec32 = TRUE /\ ops = <<>>
   /\ tab = Tables
   /\ wi \in (IF Script = <<>> THEN {0} ELSE 1..Len(Script))
+  /\ todo = IF wi = 0 THEN <<>> ELSE Script[wi]
 
 \* Exhaustive mode: every operation of the universe; calls that provably change nothing (a merge of
 \* equal values, a vacuum without tombstones, a snapshot / rewrite of an unchanged durable state)
@@ -357,8 +359,8 @@ Step ==
 \* Scripted mode: history number wi of the constant Script (seeded long histories written by the
 \* check) is followed operation by operation; no-op calls are allowed there.
 ScriptStep ==
-  /\ Len(ops) < Len(Script[wi])
-  /\ LET o == Script[wi][Len(ops) + 1] IN
+  /\ todo # <<>>
+  /\ LET o == Head(todo) IN
        CASE o.op = "Add"      -> VAdd(o.id, o.m)
          [] o.op = "Set"      -> VSetMetadata(o.id, o.m)
          [] o.op = "Del"      -> VDelete(o.id)
@@ -369,7 +371,7 @@ ScriptStep ==
          [] o.op = "Compress" -> VCompress
 
 \* the tables of the state just produced
-Derive == tab' = Tables' /\ UNCHANGED wi
+Derive == tab' = Tables' /\ UNCHANGED wi /\ todo' = IF wi = 0 THEN todo ELSE Tail(todo)
 Next == IF wi = 0 THEN Len(ops) < MaxOps /\ Step /\ Derive        \* histories of at most MaxOps operations
                   ELSE ScriptStep /\ Derive
 
